@@ -445,8 +445,10 @@ impl LockFreeMemoryPool {
             let (current_offset, current_gen) = Self::unpack_head(packed);
 
             if current_offset == LIST_TAIL {
-                // Empty bin, need to allocate new memory
-                return self.allocate_new_block(size);
+                // Empty bin, need to allocate new memory.  The block is carved at the size of
+                // its class: on free it is filed under that class and may then be handed out
+                // for any request of the class, up to the full class size.
+                return self.allocate_new_block(FAST_BIN_SIZES[bin_index]);
             }
 
             // Load next pointer from current head
@@ -492,7 +494,7 @@ impl LockFreeMemoryPool {
         }
 
         // Max retries exceeded, fall back to new allocation
-        self.allocate_new_block(size)
+        self.allocate_new_block(FAST_BIN_SIZES[bin_index])
     }
 
     /// Deallocate to fast bin using lock-free stack
